@@ -56,15 +56,21 @@ Lemma orig_left_name_unsuffixed :
   = [nK ++ sufL; nV; nK ++ sufR; nW].
 Proof. repeat split; vm_compute; reflexivity. Qed.
 
-(* F-C02f (present in the repaired tree too): one key repeated on both sides, general variant: the right map
-   [0;1;0;1] is not monotone and ordered_map_valid_stream reads outside its value window (chunk size 3) *)
+(* F-C02f (was present in the tree repaired by fix-F-C02a..e too; repaired by work/E7/fix-F-C02f.diff in
+   operations.py): one key repeated on both sides, general variant: the right map [0;1;0;1] is not monotone.
+   Before the fix ordered_map_valid_stream read outside its first..last value window (chunk size 3) — see
+   Props/C04.v map_stream_unordered_map_refuted for that code; the repaired stream gives the relational join,
+   for a numeric and for an indexed-string column on the non-monotone side *)
 Definition f_args : margs :=
   mk_margs MFixed 0 true false true false [[0;0]] [[0;0]]
-           [(nV, numcol [10;20])] [(nW, numcol [30;40])] sufL sufR 3 3 8 3.
-Lemma nonmonotone_map_fails :
-  (exists site, merge join_pairs f_args = OOB site) /\
-  map snd (join_spec true INVALID_INDEX_64 [0;0] [0;0]) = [0;1;0;1].
-Proof. split; [eexists|]; vm_compute; reflexivity. Qed.
+           [(nV, numcol [10;20])] [(nW, numcol [30;40]); (nK, CIdx [0;1;3] [97;98;98])] sufL sufR 3 3 8 3.
+Lemma nonmonotone_map_ok :
+  map snd (join_spec true INVALID_INDEX_64 [0;0] [0;0]) = [0;1;0;1] /\
+  data_cols (merge join_pairs f_args)
+  = Ok (merge_spec 0 [[0;0]] [[0;0]] (a_lcols f_args) (a_rcols f_args) sufL sufR) /\
+  data_cols (merge join_pairs f_args)
+  = Ok [(nV, numcol [10;10;20;20]); (nW, numcol [30;40;30;40]); (nK, CIdx [0;1;3;4;6] [97;98;98;97;98;98])].
+Proof. repeat split; vm_compute; reflexivity. Qed.
 
 (* F-C02g (repaired tree): a run of equal keys as long as the join chunk size on a trimmed side *)
 Definition g_args : margs :=
